@@ -182,7 +182,7 @@ export function buildLoop(host, ctx, vs) {
 }
 
 /** an identifier child whose variable was, earlier, the target of an unrelated `x = <jsx>` assignment */
-export const PRIOR_ASSIGN = ['fnLet', 'moduleReassign', 'fnParamDefault', 'assignedVarNamedSlot'];
+export const PRIOR_ASSIGN = ['fnLet', 'moduleReassign', 'fnParamDefault', 'assignedVarNamedSlot', 'selfReassign'];
 export function buildPriorAssign(host, variant) {
   const b = new ModuleBuilder();
   const tag = hostTag(b, host);
@@ -192,6 +192,7 @@ export function buildPriorAssign(host, variant) {
     case 'fnLet': b.thunks.push(`export function t0() {\n  let cur = null;\n  if (typeof t0 === "function") cur = <i id="first" />;\n  return ${J};\n}`, 'export const setCur = () => {};'); break;
     case 'moduleReassign': b.thunks.push('let cur = null;', 'cur = <i id="first" />;', `export const t0 = () => ${J};`, 'export const setCur = () => { cur = <i id="second" />; };'); break;
     case 'assignedVarNamedSlot': { const J2 = renderElement({ tag, attrs: [], children: [{ ...C.expr(b.leaf('0'), 'mkFirst()'), shape: 'call' }] }); b.thunks.push('const mkFirst = () => <i id="first" />;', 'let _slot = null;', `export function t0() {\n  _slot = ${J2};\n  return _slot;\n}`, 'export const setCur = () => {};'); break; }
+    case 'selfReassign': b.thunks.push('let cur = <i id="first" />;', `export function t0() {\n  cur = ${J};\n  return cur;\n}`, 'export const setCur = () => {};'); break;
     case 'fnParamDefault': b.thunks.push(`export function t0(cur = null) {\n  cur = cur || <i id="first" />;\n  const r = ${J};\n  return r;\n}`, 'export const setCur = () => {};'); break;
     default: throw new Error(variant);
   }
